@@ -1,0 +1,29 @@
+//go:build verif
+
+// Package verifhook provides observation points for the external
+// verification harness. With the verif build tag on, At calls the
+// installed handler (if any); with the tag off it is an empty function.
+package verifhook
+
+import "sync/atomic"
+
+// Enabled reports whether hooks are compiled in.
+const Enabled = true
+
+var handler atomic.Pointer[func(point string, args ...any)]
+
+// Set installs (or with nil removes) the handler called by At.
+func Set(f func(point string, args ...any)) {
+	if f == nil {
+		handler.Store(nil)
+		return
+	}
+	handler.Store(&f)
+}
+
+// At reports that execution reached the named point.
+func At(point string, args ...any) {
+	if f := handler.Load(); f != nil {
+		(*f)(point, args...)
+	}
+}
